@@ -197,19 +197,35 @@ def scan_assumptions(G):
     """every assumption marker must sit in a prelude section; returns the trusted-base list"""
     trusted = []
     bad = []
-    data = G.text.encode('utf-8')
-    for mm in SCAN.finditer(G.text):
-        off = len(G.text[:mm.start()].encode('utf-8'))
+    text = G.text
+    for mm in SCAN.finditer(text):
+        off = len(text[:mm.start()].encode('utf-8'))
         sec = _section_at(G, off)
-        line_start = G.text.rfind('\n', 0, mm.start()) + 1
-        line_end = G.text.find('\n', mm.end())
-        line = G.text[line_start:line_end].strip()
+        line_start = text.rfind('\n', 0, mm.start()) + 1
+        line_end = text.find('\n', mm.end())
+        line = text[line_start:line_end].strip()
         if line.startswith('//'):
             continue
         if sec == 'prelude':
-            # name the item that follows
-            nxt = re.search(r'\b(fn|struct|trait|enum|type)\s+(\w+)', G.text[mm.start():mm.start() + 400])
-            trusted.append('%s: %s %s' % (mm.group(0).strip('( '), nxt.group(1) if nxt else '', nxt.group(2) if nxt else line[:60]))
+            what = mm.group(0).strip('( ')
+            if what == 'assume_specification':
+                pm = re.search(r'\[\s*(.*?)\s*\]\s*\(', text[mm.end():mm.end() + 300], re.S)
+                trusted.append('assume_specification %s' % (' '.join(pm.group(1).split()) if pm else line[:80]))
+            elif 'external' in what:
+                nxt = re.search(r'\b(fn|struct|trait|enum|type)\s+(\w+)', text[mm.end():mm.end() + 400])
+                # enclosing impl header, if any
+                im = None
+                for x in re.finditer(r'^impl[^\n{]*\{', text[:mm.start()], re.M):
+                    im = x
+                ctx = ''
+                if im:
+                    # still inside that impl?  (brace balance between impl start and here)
+                    seg = text[im.end():mm.start()]
+                    if seg.count('{') - seg.count('}') >= 0:
+                        ctx = ' in `%s`' % ' '.join(im.group(0).rstrip('{').split())
+                trusted.append('%s %s %s%s' % (what, nxt.group(1) if nxt else '', nxt.group(2) if nxt else line[:60], ctx))
+            else:
+                trusted.append('%s: %s' % (what, line[:80]))
         else:
             f = _fn_at(G, off)
             if f and f[4] == 'assumed':
@@ -219,7 +235,25 @@ def scan_assumptions(G):
                 trusted.append('termination not checked for %s' % f[2])
                 continue
             bad.append('%s in %s section: %s' % (mm.group(0), sec, line[:100]))
-    # prelude trait methods without body are assumed contracts as well
+    # stand-in traits of the prelude: every method declared without a body carries an assumed contract
+    for sec, spans in G.section_spans.items():
+        if sec != 'prelude':
+            continue
+        data = text.encode('utf-8')
+        for (s, e) in spans:
+            ptxt = data[s:e].decode('utf-8')
+            for tm in re.finditer(r'\bpub trait (\w+)[^{]*\{', ptxt):
+                depth = 1
+                k = tm.end()
+                while k < len(ptxt) and depth > 0:
+                    if ptxt[k] == '{':
+                        depth += 1
+                    elif ptxt[k] == '}':
+                        depth -= 1
+                    k += 1
+                body = ptxt[tm.end():k]
+                meths = re.findall(r'\n\s*fn (\w+)', body)
+                trusted.append('stand-in trait %s with assumed method contracts: %s' % (tm.group(1), ', '.join(meths)))
     return sorted(set(trusted)), bad
 
 
